@@ -34,7 +34,7 @@ ASSUMPTIONS = [
 BOUNDS = {
     "quick": "single source: 4 names x inherit lists (len<=2) over the 3 other names = 10^4 graphs x 8 key-pattern triples x 4 roots; "
     "ordered trees: every tree on 5 names rooted at s0 with every child order x all 32 key patterns x 5 roots; missing targets: 3 names x lists (len<=2) over {2 others, undefined} x 4 pattern triples; two sources: 3 names, each defined in "
-    "early/late/both, lists (len<=1) over {2 others, self} x 8 pattern triples, all roots; three sources: 2 names, any non-empty "
+    "early/late/both, lists (len<=1) over {2 others, self} x 8 pattern triples, all roots; two sources, 2 names, lists (len<=2) over {other, self} on every definition; three sources: 2 names, any non-empty "
     "subset of sources, lists (len<=1) over {other, self} x 8 pattern triples",
     "thorough": "ordered trees as quick; single source: 4 names x lists (len<=2) over {3 others, undefined} = 17^4 graphs x 8 pattern triples x 4 roots; "
     "two sources: 3 names, late definitions with lists len<=2, early definitions len<=1 over {2 others, self}; three sources as quick "
@@ -353,6 +353,9 @@ def tasks(tier):
     # two sources, 3 names: partition by the presence pattern (3^3) and s0's choice index
     for pres in itertools.product(("late", "early", "both"), repeat=3):
         out.append(("two", tier, pres))
+    # two sources, 2 names, lists of length <= 2 over {other, self} on every definition
+    for pres in itertools.product(("late", "early", "both"), repeat=2):
+        out.append(("two2", tier, pres))
     # three sources, 2 names: partition by presence subsets
     subsets = [s for n in (1, 2, 3) for s in itertools.combinations(range(3), n)]
     for p0 in subsets:
@@ -422,6 +425,23 @@ def gen(task):
         for inh in itertools.product(*opts):
             for tr in triples:
                 yield build(slots, inh, tr), "two"
+    elif kind == "two2":
+        pres = task[2]
+        names = NAMES[:2]
+        slots = []
+        opts = []
+        for nm, p in zip(names, pres):
+            targets = [x for x in names if x != nm] + [nm]
+            if p in ("early", "both"):
+                slots.append((nm, 0))
+                opts.append(lists(targets, 2))
+            if p in ("late", "both"):
+                slots.append((nm, 1))
+                opts.append(lists(targets, 2))
+        triples = strided_patterns(len(slots), 8)
+        for inh in itertools.product(*opts):
+            for tr in triples:
+                yield build(slots, inh, tr), "two2"
     elif kind == "three":
         p0, p1 = task[2]
         names = NAMES[:2]
